@@ -42,10 +42,10 @@ def run_impl(cases, exe=None, jobs=12, timeout=3600):
     return [c for ch in res for c in ch]
 
 
-def run_model(cases, timeout=3600):
+def run_model(cases, timeout=3600, mode="seq"):
     if not cases or not os.path.exists(C.FMODEL):
         return None
-    return _run_chunk(C.FMODEL, "seq", cases, timeout)
+    return _run_chunk(C.FMODEL, mode, cases, timeout)
 
 
 def first_mismatch(impl, model):
